@@ -61,7 +61,7 @@ def crash_case(case):
         n = kw["n_intf"] + 1
         T = kw["steps"]
         sched = list(case.get("schedule") or [])
-        inj = CH.Injector(crash_at=case["crash_at"], torn=case["torn"])
+        inj = CH.Injector(crash_at=case["crash_at"], torn=case["torn"], buffered=case.get("buffered", False))
         tag, res = run_armed(wd, inj, case["which"], "infretis.toml", schedule=sched)
         out["info"]["effects"] = len(inj.log)
         out["info"]["crashed_effect"] = inj.log[-1] if (tag == "crash" and inj.log) else None
@@ -113,7 +113,7 @@ def crash_case(case):
                         out["info"].setdefault("rows_after_trim", read_rows(wd, n))
                     if rnd is not None:
                         CH.arm_on_treat(state, inj2, rnd[0])
-            inj2 = CH.Injector(crash_at=rnd[1], torn=rnd[2]) if rnd is not None else None
+            inj2 = CH.Injector(crash_at=rnd[1], torn=rnd[2], buffered=case.get("buffered", False)) if rnd is not None else None
             if inj2 is not None:
                 inj2.install(wd)
             try:
